@@ -363,6 +363,19 @@ func StartProxy(o ProxyOpts) (*ProxyInst, error) {
 	ctx, cancel := context.WithCancel(context.Background())
 	pi := &ProxyInst{HP: hp, Addr: addrs[0], Reg: reg, Dials: dl, Tr: tr, cancel: cancel, done: make(chan error, 1)}
 	go func() { pi.done <- hp.Run(ctx) }()
+	// Warm-up: martian initialises itself (and writes fields of the shared http.Transport) in the
+	// Serve goroutine. Connect once and wait until the listener's accept counter shows it: the
+	// atomic counter read orders everything the harness does afterwards (e.g. CloseIdleConnections
+	// on the transport) after that initialisation, also in the eyes of the race detector.
+	if c, err := net.DialTimeout("tcp", pi.Addr, 5*time.Second); err == nil {
+		c.Close()
+		for i := 0; i < 5000; i++ {
+			if pi.Gather()["forwarder_listener_cx_total{}"] >= 1 {
+				break
+			}
+			time.Sleep(200 * time.Microsecond)
+		}
+	}
 	return pi, nil
 }
 
